@@ -242,6 +242,32 @@ pub fn run(tier: Tier) -> i32 {
             EnumPlan { shape: vec![2, 0, 1], max_gates: 3, out_pairs: true },
         ],
     };
+    // fan-out ladder: one wire read by f gates, for f around every width a counter might have (2^8,
+    // 2^16) - with the wire also an output or not, the readers chained or independent
+    let mut fanout_circuits = 0u64;
+    for f in [1usize, 2, 254, 255, 256, 257, 65534, 65535, 65536, 65537, 70000] {
+        for also_output in [false, true] {
+            for chained in [false, true] {
+                // inputs: wires 0 and 1; every gate reads wire 0 and either wire 1 or the previous gate
+                let mut gates = Vec::with_capacity(f);
+                for k in 0..f {
+                    let other = if chained && k > 0 { 2 + k - 1 } else { 1 };
+                    gates.push(if k % 3 == 0 { Gate::And(0, other) } else { Gate::Xor(0, other) });
+                }
+                let mut output_gates = vec![2 + f - 1, 2 + f / 2];
+                if also_output {
+                    output_gates.push(0);
+                }
+                let c = Circuit { input_gates: vec![2], gates, output_gates };
+                fanout_circuits += 1;
+                let inputs = all_inputs(&[2]);
+                let mut sig = (0usize, 0usize);
+                if let Some((kind, detail)) = check_conversion(&c, &inputs, &mut sig) {
+                    coll.push(Violation::new("C10", format!("fan-out/{f}/{}{}", if chained { "chained" } else { "independent" }, if also_output { "+output" } else { "" }), kind, "", json!({"kind": "ssa-circuit", "description": format!("wire 0 read by {f} gates (every third an AND), chained = {chained}, wire 0 also an output = {also_output}")}), detail));
+                }
+            }
+        }
+    }
     let sh = Shared { coll: &coll, circuits: AtomicU64::new(0), transitions: AtomicU64::new(0), evals: AtomicU64::new(0), sigs: Mutex::new(BTreeMap::new()), max_saved: AtomicU64::new(0) };
     let mut per = vec![];
     let mut complete = true;
@@ -318,6 +344,7 @@ pub fn run(tier: Tier) -> i32 {
             ],
             "explanation": "states = SSA circuit values converted by the real register_circuit::Circuit::from; each is validated, structurally translation-validated (every operand register holds exactly the SSA wire the gate names; outputs pinned) and evaluated on all 2^m inputs in both forms",
             "per_plan": per,
+            "fan_out_ladder_circuits(one wire read by 1 .. 70000 gates)": fanout_circuits,
             "evaluations_both_forms": sh.evals.load(Ordering::Relaxed),
             "registers_saved_histogram": *sh.sigs.lock().unwrap(),
             "max_registers_saved": sh.max_saved.load(Ordering::Relaxed),
